@@ -358,6 +358,10 @@ def inv_multi(c, o, rls, label="Inv_M"):
 
 
 class _MultiOp(_Op):
+    # C03's split clause ("... and after every preprocessing step ... references in the listed order") is these contracts' postcondition
+    props = ("C14", "C03")
+    prop_clauses = {"C03": lambda oid: "data=split(datasets)" in oid or "accepted-without-exception" in oid or "datasets[" in oid}
+
     def setup(self, c):
         o = multi_setup(c)
         self.remember(c, o)
@@ -460,6 +464,8 @@ class multi_rollback(_MultiOp):
 @register
 class multi_init(_Op):
     qualname = MS + ".__init__"
+    props = ("C14", "C03")
+    prop_clauses = dict(_MultiOp.prop_clauses)
 
     def setup(self, c):
         rls, dss = [], []
